@@ -19,6 +19,8 @@ PIDS = ("C01", "C02", "C03", "C06", "C07", "C08", "C09", "C10", "C18", "C19")
 
 
 def tree_hash():
+    """hash of everything that affects EVERY job: the code under test and the instrumentation (not the inputs, not the
+    configurations, not the list of jobs: those are part of each job's own key)"""
     h = hashlib.sha1()
     root = os.path.join(corpus.REPO, "vsg")
     for d, dirs, files in sorted(os.walk(root)):
@@ -31,15 +33,30 @@ def tree_hash():
                 h.update(p.encode())
                 with open(p, "rb") as fh:
                     h.update(fh.read())
-    for f in ("pipeline.py", "runner.py", "variants.py", "designs.py", "monitor.py", "../contracts/fixes.py", "../contracts/vhdlfile.py", "../contracts/tags.py", "../pyvc/concrete.py"):
+    for f in ("pipeline.py", "monitor.py", "../contracts/fixes.py", "../contracts/vhdlfile.py", "../contracts/tags.py", "../pyvc/concrete.py"):
         with open(os.path.join(VERIF, "bounded", f), "rb") as fh:
             h.update(fh.read())
-    # the inputs of the universe
-    for p in corpus.corpus_files():
-        h.update(p.encode())
-        with open(p, "rb") as fh:
-            h.update(fh.read())
     return h.hexdigest()[:16]
+
+
+def job_key(job):
+    """hash of one job's own inputs: the text it runs on, the configuration dictionary, the skip list"""
+    from bounded import configs, designs, docconfigs, variants
+
+    path, cfg, variant = job
+    h = hashlib.sha1(json.dumps(job).encode())
+    if path.startswith("gen:"):
+        h.update(designs.all_designs()[path[4:]].encode())
+    else:
+        with open(path, "rb") as fh:
+            h.update(fh.read())
+    if variant:
+        with open(variants.__file__, "rb") as fh:
+            h.update(fh.read())
+    c = docconfigs.harvest(corpus.REPO)[cfg] if cfg.startswith("doc:") else configs.CONFIGS[cfg]
+    h.update(json.dumps(c, sort_keys=True, default=str).encode())
+    h.update(json.dumps(configs.SKIPS.get(cfg, [])).encode())
+    return h.hexdigest()[:20]
 
 
 def universe():
@@ -157,24 +174,34 @@ def run_job(job):
 
 
 def run_all(tier, seed, use_cache=True):
+    """results of the jobs of this tier; every job's result is cached under (tree_hash, job_key), so adding inputs or
+    configurations to the universe costs only the new jobs.  returns (results, fraction of jobs taken from the cache == 1.0)"""
     jobs = plan(tier, seed)
-    key = "%s_%s_%d" % (tree_hash(), tier, seed)
+    th = tree_hash()
     cdir = os.path.join(VERIF, ".cache")
-    cpath = os.path.join(cdir, "pipeline_%s.json" % key)
+    cpath = os.path.join(cdir, "jobs_%s.json" % th)
+    store = {}
     if use_cache and os.path.exists(cpath):
-        with open(cpath) as fh:
-            return json.load(fh), True
-    res = corpus.pmap(run_job, jobs, chunksize=1)
-    out = []
-    for job, probs, stats in res:
-        out.append({"job": [job[0] if job[0].startswith("gen:") else os.path.relpath(job[0], corpus.REPO), job[1], job[2]], "probs": probs, "stats": stats})
-    os.makedirs(cdir, exist_ok=True)
-    for f in os.listdir(cdir):
-        if f.startswith("pipeline_") and not f.startswith("pipeline_%s" % tree_hash()):
-            os.remove(os.path.join(cdir, f))
-    with open(cpath, "w") as fh:
-        json.dump(out, fh)
-    return out, False
+        try:
+            with open(cpath) as fh:
+                store = json.load(fh)
+        except Exception:
+            store = {}
+    keys = [job_key(j) for j in jobs]
+    todo = [(j, k) for j, k in zip(jobs, keys) if k not in store]
+    if todo:
+        res = corpus.pmap(run_job, [j for j, k in todo], chunksize=1)
+        for (job, probs, stats), (j, k) in zip(res, todo):
+            store[k] = {"job": [job[0] if job[0].startswith("gen:") else os.path.relpath(job[0], corpus.REPO), job[1], job[2]], "probs": probs, "stats": stats}
+        os.makedirs(cdir, exist_ok=True)
+        for f in os.listdir(cdir):
+            if (f.startswith("jobs_") or f.startswith("pipeline_")) and f != "jobs_%s.json" % th:
+                os.remove(os.path.join(cdir, f))
+        tmp = cpath + ".%d.tmp" % os.getpid()
+        with open(tmp, "w") as fh:
+            json.dump(store, fh)
+        os.replace(tmp, cpath)
+    return [store[k] for k in keys], not todo
 
 
 def findings(results, pid):
